@@ -504,4 +504,12 @@ def step' (w : World) (op : Op) : World :=
 
 def run (w : World) (ops : List Op) : World := ops.foldl step' w
 
+/-- wasm-level `MsgMigrateContract`: the chain lets only the registry's (wasm) admin of a contract migrate it. For a minter
+that is the SENDER of `CreateMinter` (`WasmMsg::Instantiate { admin: Some(info.sender) }` in all four factories), not the
+creator named in the request. -/
+def mayMigrate (w : World) (a sender : Addr) : Bool :=
+  match w.contract? a with
+  | some c => c.admin == some sender
+  | none => false
+
 end LP.FC
